@@ -534,9 +534,9 @@ std::string
 gen_c08()
 {
 	std::ostringstream t;
-	int mode = *pbt::welem<int>({{3, 0}, {2, 1}, {2, 2}});
+	int mode = *pbt::welem<int>({{3, 0}, {2, 1}, {2, 2}, {2, 3}});
 	int w    = *pbt::welem<int>({{3, 0}, {3, 1}, {2, 2}, {2, 3}});
-	t << "cfg " << *pbt::range<int>(1, 1000000) << " " << mode << " " << *gen::element(10, 30, 60) << " " << *pbt::range<int>(1, 3) << " 600 0\n";
+	t << "cfg " << *pbt::range<int>(1, 1000000) << " " << mode << " " << (mode == 3 ? *gen::element(5, 20, 50) : *gen::element(10, 30, 60)) << " " << *pbt::range<int>(1, 3) << " " << (mode == 3 ? *gen::element(60, 150, 400) : 600) << " 0\n";
 	t << "world " << w << "\n";
 	if (w <= 1 && *gen::weightedElement<int>({{1, 0}, {4, 1}}))
 		t << "dial 1\n";
